@@ -119,14 +119,23 @@ ASSUMPTIONS = [
     "procedure outside them (ctfTRu_no_internal_error_partial: validated input, no self-intervened variable together with a "
     "valueless variable, plain event variables as built by the public wrapper, every domain graph keeps the target's "
     "bidirected edges between non-policy variables and has no bidirected edge at a selection node => answer or FAIL, no "
-    "error); for Algorithm 3 PROVED outside its crash classes (ctfTR_no_internal_error_partial: validated input, plain query "
-    "variables, DomainsAgree, and "
-    "three decidable predicates on the input: OutcomesFound = every outcome is found in the ancestral components under its own "
-    "name, DstarOneWorld = D* names each vertex in one world, OutcomeNotCondition = no outcome shares its vertex with a "
-    "condition; the facts about Algorithm 2's expression Q - never Zero(), only graph vertices and variables of the domain "
-    "distributions - are proved: ctfTR_q_good). FALSE without OutcomesFound (known findings; Lean witness a3Miss); OPEN "
-    "whether DstarOneWorld / OutcomeNotCondition are needed (no exception was ever observed with OutcomesFound true); the "
-    "oracle reports every exception after validation",
+    "error); for Algorithm 3 PROVED outside ONE crash class, for domain distributions over plain variables "
+    "(ctfTR_no_internal_error_plain_partial: validated input, plain query variables, DomainsAgree, PopsPlain = the children of "
+    "every domain's PopulationProbability are plain Variables, as in the PP[pi](V) every case of this harness carries, and the "
+    "decidable predicate OutcomesFound = every outcome is found in the ancestral components under its own name; the facts "
+    "about Algorithm 2's expression Q - never Zero(), only graph vertices and variables of the domain distributions, and it "
+    "mentions the vertex of every found outcome - are proved: ctfTR_q_good, qCovers_of_popsPlain). FALSE without OutcomesFound "
+    "(known findings crash:ctfTR-derived-event-rejected / crash:ctfTR-final-check; Lean witness a3Miss; the harness's "
+    "syntactic miss_all / miss_some is exactly the complement of OutcomesFound, cross-checked against the model by "
+    "tools/c09_errsearch.py --sig). The two further classes of ctfTR_no_internal_error_partial are DECIDED: DstarOneWorld "
+    "(D* names each vertex in one world) is not needed for any distributions (ctfTR_no_internal_error_found_partial: a vertex "
+    "in two worlds is merged by the conversion to ctf-factor form or makes Algorithm 2 answer FAIL, so an answer binds every "
+    "vertex once: ctfTR_simplified_binds_once; in particular CtfTr.finalChecksOrderSensitive is false on every answer); "
+    "OutcomeNotCondition (no outcome shares its vertex with a condition) IS needed for arbitrary domain distributions - a "
+    "distribution that lists a counterfactual variable next to its vertex, PP[pi](X, Y, Y_x), makes P*(Y = y | Y = y') raise "
+    "KeyError from check 5 of the output check after both validators accepted the input (Lean witness a3Shared, confirmed on "
+    "the Python by tools/c09_popworld_witness.py; open finding crash:ctfTR-final-check:population-world, NOT reachable by "
+    "this harness's case format) - and is not needed under PopsPlain; the oracle reports every exception after validation",
     "failures on inputs with the syntactic signature of an open finding AND its kind of outcome (wrong value / wrong zero / "
     "exception class at a named check) are attributed to that finding by class key (17 keys; signature computed on the "
     "minimised query with the harness's own graph code); a different defect that only shows on such inputs with the same "
@@ -1195,8 +1204,11 @@ def signature(case):
                      event variable that is not subscripted by z and is not z               [C19 factorisation literal-bound];
                      ctfTR: also a kept literal subscript named like an OUTCOME (the denominator sums over that name)
       miss_all/some  ctfTR only: the outcome Y_x is looked up in the ancestral components under its raw name, but the
-                     components store ||Y_x|| computed in the graph whose edges out of the conditioned ancestors are cut;
-                     miss = raw name differs from the stored one (for all / for some outcomes)
+                     components store the members of An(W_t), W_t an outcome or a condition, computed in the graph whose
+                     edges out of the conditioned ancestors of W_t are cut (Def. 2.1 / 4.2, as y0 builds them: a
+                     self-intervened Y_y keeps its subscript); miss = the raw variable is a member of none of these sets
+                     (for all / for some outcomes).  EXACTLY the complement of the model's class `CtfTr.OutcomesFound`
+                     (miss_all <=> the derived event D* is empty), cross-checked by tools/c09_errsearch.py --sig
       has_none       some variable has no value
       simplify_risk  a self-intervened variable Y_y and a valueless variable with the same name Y
       domain_drops_bi  a domain graph lacks a bidirected edge of the target (Algorithm 4's ValueError)
@@ -1230,11 +1242,25 @@ def signature(case):
             literal_bound = True
     miss = []
     if conds:
-        minc = {_min_var(di, c) for c in conds}
-        for v in outs:
-            W, S = _raw(v)
-            cx = {c[0] for c in minc if c in _ctf_ancestors(di, W, S)}
-            miss.append((W, S) not in _ctf_ancestors([e for e in di if e[0] not in cx], W, S))
+        def an_of(edges, v):       # get_ancestors_of_counterfactual, Def. 2.1 (the harness's own graph code)
+            W, S = v
+            if not S:
+                return {(a, frozenset()) for a in FE.ancestors(edges, {W})}
+            X = {z for z, _ in S}
+            below = FE.ancestors([e for e in edges if e[0] not in X], {W})
+            return {(a, frozenset((z, s_) for z, s_ in S if z in FE.ancestors(edges, {a}, removed_in=X))) for a in below}
+
+        def minimised(v):          # ||Y_x||: a subscript stays iff it is an ancestor of Y in the graph without the edges into X
+            W, S = v
+            keep = FE.ancestors(di, {W}, removed_in={z for z, _ in S})
+            return W, frozenset((z, s_) for z, s_ in S if z in keep)
+
+        minc = {minimised(_raw(c)) for c in conds}
+        stored = set()             # the members of every ancestral set An(W_t) in G with the edges out of X_*(W_t) cut
+        for r in {_raw(v) for v in outs + conds}:
+            cx = {c[0] for c in minc if c in an_of(di, r)}
+            stored |= an_of([e for e in di if e[0] not in cx], r)
+        miss = [_raw(v) not in stored for v in outs]
     refl_names = {int(v[1]) for v in vars_ if any(int(z) == int(v[1]) for z, _ in v[4])}
     return {"reflexive": reflexive, "two_values": two_values, "multi_world": multi_world, "literal_bound": literal_bound,
             "has_none": any(v[2] == "n" for v in vars_), "miss_all": bool(miss) and all(miss),
@@ -1265,7 +1291,10 @@ def finding_key(case, res):
                 and "at _validate_transport_unconditional_counterfactual_query_input:" in fail and sig["miss_all"]):
             cls = "crash:ctfTR-derived-event-rejected"
         elif (kind == "cond" and fail.startswith("KeyError (") and "at least one variable in the event" in fail
-              and "at _validate_transport_conditional_counterfactual_query_line_4_output:" in fail and miss):
+              and "at _validate_transport_conditional_counterfactual_query_line_4_output:" in fail and sig["miss_some"]):
+            # check 5 of the output check, with an outcome dropped from a NON-empty D* (miss_all is the empty D*, which
+            # Algorithm 2's validator rejects before line 4; Lean: with OutcomesFound = no miss - Algorithm 3 never
+            # raises, ctfTR_no_internal_error_plain_partial)
             cls = "crash:ctfTR-final-check"
         elif (fail.startswith("TypeError (") and "at _any_variables_with_inconsistent_values:" in fail
               and sig["simplify_risk"]):
